@@ -707,6 +707,34 @@ pub fn run_entry<K: KeyT, V: ValT>(m: &mut M<K, V>, _other: &mut M<K, V>, name: 
             }
             t.into()
         }
+        // a raw entry looked up with one key (a[1]) and filled with ANOTHER key (a[3]): the stored key decides
+        // where the pair is filed
+        ("raw_other", 7) => {
+            let k = n(1);
+            let key = K::new(n(3), n(4));
+            let val = V::new(n(5), n(6));
+            let e = raw_look(m, a[0], k);
+            if a[2] == "or_insert" {
+                let t = match &e {
+                    RawEntryMut::Occupied(_) => "occ",
+                    RawEntryMut::Vacant(_) => "vac",
+                };
+                let (k2, v2) = e.or_insert(key, val);
+                format!("{} {}", t, fmt_kv(&*k2, &*v2))
+            } else {
+                match e {
+                    RawEntryMut::Vacant(ve) => {
+                        let (k2, v2) = ve.insert(key, val);
+                        format!("vac {}", fmt_kv(&*k2, &*v2))
+                    }
+                    RawEntryMut::Occupied(_) => {
+                        drop(val);
+                        drop(key);
+                        "occ".into()
+                    }
+                }
+            }
+        }
         ("try_insert", 4) => {
             let (k, kid) = (n(0), n(1));
             let key = K::new(k, kid);
@@ -1044,6 +1072,18 @@ pub fn ref_entry(
             }
         },
         "raw_from_key" | "raw_from_key_hashed" | "raw_from_hash" if a.len() >= 2 => ref_raw_chain(r, n(0), &a[1..]),
+        "raw_other" if a.len() == 7 => match r.get(&n(1)).copied() {
+            Some(old) => Some(if a[2] == "or_insert" { format!("occ {}", fe(n(1), &old)) } else { "occ".into() }),
+            None => {
+                let e = (n(4), n(5), n(6));
+                if r.contains_key(&n(3)) {
+                    // storing a second pair with a key that is already there is the caller's mistake: no reference
+                    return Ok(None);
+                }
+                r.insert(n(3), e);
+                Some(format!("vac {}", fe(n(3), &e)))
+            }
+        },
         "raw_get" | "raw_get_hash" => Some(r.get(&n(0)).map_or("-".into(), |e| fe(n(0), e))),
         "extend" | "extend_r0" | "extend_r1" | "from_iter" => {
             if name == "from_iter" {
@@ -1148,6 +1188,10 @@ pub fn moved_in(name: &str, a: &[&str]) -> Vec<String> {
                 out.push(format!("k{}", a[1]));
             }
             chain_val(&a[2..], &mut out);
+        }
+        "raw_other" if a.len() == 7 => {
+            out.push(format!("k{}", a[4]));
+            out.push(format!("v{}", a[5]));
         }
         "try_insert" | "insert_unique_unchecked" if a.len() == 4 => {
             out.push(format!("k{}", a[1]));
